@@ -6,6 +6,7 @@
   `Mtv.TL.decoder_safe`).
 -/
 import Mtv.TL.Decode
+import Mtv.Lemmas.TLRoundTripMain
 import Mtv.Lemmas.C06Num
 namespace Mtv.TL
 open Mtv
@@ -423,8 +424,8 @@ theorem decoder_bigok (R : Registry) (gz : Bytes → Option Bytes) : ∀ (fuel :
                   | none => simp [Good]
                   | some plain =>
                     simp only
-                    have := ihReg plain []
-                    cases h3 : decRegistered R gz fuel plain [] with
+                    have := ihReg plain hs
+                    cases h3 : decRegistered R gz fuel plain hs with
                     | err _ => simp [Good]
                     | panic _ => simp [Good]
                     | ok q2 =>
